@@ -1431,6 +1431,17 @@ func casterAddConds(c *Ctx, q *fq, adds []ssa.Instruction) {
 		// two's complement subtraction of the packed delta: argument is ^(packed - 1) with the same packing as the positive add
 		arg := callArg(a, 1)
 		okc := false
+		if u, ok := arg.(*ssa.UnOp); ok && u.Op == token.SUB {
+			// unsigned negation: -v == ^(v - 1)
+			pos := ""
+			for _, o := range adds {
+				if o != a {
+					pos = P.Lin(callArg(o, 1)).String()
+				}
+			}
+			neg := strings.ReplaceAll(P.Lin(u.X).String(), "-P("+q.param(1)+")", "+P("+q.param(1)+")")
+			okc = pos != "" && neg == pos
+		}
 		if u, ok := arg.(*ssa.UnOp); ok && u.Op == token.XOR {
 			if sb, ok := u.X.(*ssa.BinOp); ok && sb.Op == token.SUB {
 				if k, isK := constInt(sb.Y); isK && k == 1 {
